@@ -924,99 +924,113 @@ func (y *IfFeature) Evaluate(enabled map[string]*Feature) (bool, error) {
 		features: enabled,
 		expr:     y.expr,
 	}
-	e.eval(false)
-	b := e.pop()
-	err := e.lastErr
-	if err == nil && len(e.stack) != 0 {
-		return false, errors.New("syntax err in feature expression:" + y.expr)
+	b := e.orExpr()
+	if e.lastErr == nil && e.peek() != "" {
+		e.syntaxErr()
 	}
-	return b, err
+	return b, e.lastErr
 }
 
+// ifFeatureEval evaluates the boolean expression of an if-feature statement. RFC7950 Sec 7.20.2
+//
+//	if-feature-expr   = if-feature-term [sep "or" sep if-feature-expr]
+//	if-feature-term   = if-feature-factor [sep "and" sep if-feature-term]
+//	if-feature-factor = "not" sep if-feature-factor / "(" if-feature-expr ")" / identifier-ref-arg
+//
+// so "not" binds tightest, then "and", then "or".
 type ifFeatureEval struct {
 	features map[string]*Feature
 	expr     string
-	stack    []bool
 	pos      int
 	lastErr  error
 }
 
-func (y *ifFeatureEval) eval(greedy bool) {
-	for !y.end() {
-		tok := y.next()
-		switch tok {
-		case "(":
-			y.eval(false)
-		case ")":
-			return
-		case "and":
-			y.eval(true)
-			a, b := y.pop(), y.pop()
-			y.push(a && b)
-		case "not":
-			y.eval(true)
-			y.push(!y.pop())
-		case "or":
-			y.eval(false)
-			a, b := y.pop(), y.pop()
-			y.push(a || b)
-		default:
-			_, found := y.features[tok]
-			y.push(found)
-		}
-		if greedy {
-			return
-		}
+func (y *ifFeatureEval) syntaxErr() {
+	if y.lastErr == nil {
+		y.lastErr = errors.New("syntax err in feature expression:" + y.expr)
 	}
-	return
+}
+
+func (y *ifFeatureEval) orExpr() bool {
+	result := y.andExpr()
+	for y.lastErr == nil && y.peek() == "or" {
+		y.next()
+		rhs := y.andExpr()
+		result = result || rhs
+	}
+	return result
+}
+
+func (y *ifFeatureEval) andExpr() bool {
+	result := y.factor()
+	for y.lastErr == nil && y.peek() == "and" {
+		y.next()
+		rhs := y.factor()
+		result = result && rhs
+	}
+	return result
+}
+
+func (y *ifFeatureEval) factor() bool {
+	tok := y.next()
+	switch tok {
+	case "not":
+		return !y.factor()
+	case "(":
+		result := y.orExpr()
+		if y.next() != ")" {
+			y.syntaxErr()
+		}
+		return result
+	case "", ")", "and", "or":
+		y.syntaxErr()
+		return false
+	}
+	_, found := y.features[tok]
+	return found
 }
 
 func (y *ifFeatureEval) end() bool {
 	return y.pos >= len(y.expr)
 }
 
+func (y *ifFeatureEval) isWs(c byte) bool {
+	return c == ' ' || c == '\t' || c == '\n' || c == '\r'
+}
+
 func (y *ifFeatureEval) eatws() {
 	for !y.end() {
-		if y.expr[y.pos] != ' ' {
+		if !y.isWs(y.expr[y.pos]) {
 			break
 		}
 		y.pos++
 	}
 }
 
+func (y *ifFeatureEval) peek() string {
+	pos := y.pos
+	tok := y.next()
+	y.pos = pos
+	return tok
+}
+
 func (y *ifFeatureEval) next() string {
 	y.eatws()
 	start := y.pos
 	for !y.end() {
-		switch y.expr[y.pos] {
-		case ' ':
-			goto brk
-		case '(', ')':
+		c := y.expr[y.pos]
+		if y.isWs(c) {
+			break
+		}
+		if c == '(' || c == ')' {
 			if y.pos == start {
 				y.pos++
 			}
-			goto brk
+			break
 		}
 		y.pos++
 	}
-brk:
-	tok := y.expr[start:y.pos]
-	return tok
-}
-
-func (y *ifFeatureEval) pop() bool {
-	if len(y.stack) == 0 {
-		y.lastErr = errors.New("syntax err in feature expression:" + y.expr)
-		return false
-	}
-	last := len(y.stack) - 1
-	b := y.stack[last]
-	y.stack = y.stack[0:last]
-	return b
-}
-
-func (y *ifFeatureEval) push(b bool) {
-	y.stack = append(y.stack, b)
+	return y.expr[start:y.pos]
 }
 
 type When struct {
